@@ -123,6 +123,22 @@ func PathFrom(from ssa.Instruction, q PathQuery) *Exit {
 	return pathSearch(start, idx, q)
 }
 
+// Precedes reports whether every feasible path from the function entry to b passes a: a dominates
+// b, or the only paths around a are ruled out by jump threading (the error return of an expanded helper
+// that the caller's "if err != nil { return }" takes out).
+func Precedes(a, b ssa.Instruction) bool {
+	if Dominates(a, b) {
+		return true
+	}
+	if a.Parent() != b.Parent() || len(a.Parent().Blocks) == 0 {
+		return false
+	}
+	return pathSearch(a.Parent().Blocks[0], 0, PathQuery{
+		Stop:   func(in ssa.Instruction) bool { return in == a },
+		Target: func(in ssa.Instruction) bool { return in == b },
+	}) == nil
+}
+
 // PathFromEntry is PathFrom starting at the function entry.
 func PathFromEntry(fn *ssa.Function, q PathQuery) *Exit {
 	if len(fn.Blocks) == 0 {
